@@ -122,6 +122,32 @@ func TestVerifC13(t *testing.T) {
 			r.Eval(fmt.Sprintf("za:too-long,len%%8192=%d", l%8192))
 		})
 	}
+	// ids whose BIT length crosses an integer width: 8 * len = 2^32 at 2^29 bytes (and 2^33 at 2^30): a
+	// length computed in 32 bits wraps to a small ENTL. One untouched zero mapping serves all lengths;
+	// a correct library refuses before it reads a byte.
+	if big := hk.ZeroMap(3<<29+8192+16, false); big != nil {
+		for _, l := range []int{1 << 29, 1<<29 + 1, 1<<29 + 16, 1<<29 + 8191, 1<<29 + 8192, 1 << 30, 1<<30 + 16, 3<<29 + 5, 1<<28 + 16} {
+			var got []byte
+			var err error
+			p, msg, _, _ := hk.Try(func() { got, err = ZA(big[:l], px0, py0) })
+			if p {
+				r.Violation("za-panics:too-long-id", hk.D{"idlen": l, "panic": msg})
+			} else if err == nil {
+				r.Violation(fmt.Sprintf("za-accepts-too-long-id:len=2^%d+%d", bitlenInt(l)-1, l-1<<uint(bitlenInt(l)-1)), hk.D{"idlen": l, "za": hk.Hex(got)})
+			}
+			if l == 1<<29+16 {
+				_, _, serr := Sign(big[:l], px0, py0, newScript(idbuf[:256]), ref.B32(d0), []byte("m"))
+				ok, _ := Verify(big[:l], px0, py0, []byte("m"), ref.B32(bi(5)), ref.B32(bi(7)))
+				if serr == nil || ok {
+					r.Violation("sign-or-verify-accepts-too-long-id", hk.D{"idlen": l})
+				}
+			}
+			r.Eval(fmt.Sprintf("za:too-long,len=2^%d+", bitlenInt(l)-1))
+		}
+		hk.Unmap(big)
+	} else {
+		r.Inconclusive("c13: cannot map 1.5 GiB of zero pages for the giant-id cases")
+	}
 	r.Sample(hk.D{"kind": "ZA", "idlen": 8191, "px": hk.Hex(px0), "py": hk.Hex(py0)})
 
 	// ---- wrappers: Sign == SignZa == SignHashed(SM3(ZA||M)) on the same stream;
@@ -334,4 +360,12 @@ func TestVerifC13(t *testing.T) {
 
 func randScalarIdx(seed uint64, i int) *big.Int {
 	return randScalar(hk.NewRNG(seed, caseID("c13k", i)))
+}
+
+func bitlenInt(v int) int {
+	n := 0
+	for ; v > 0; v >>= 1 {
+		n++
+	}
+	return n
 }
